@@ -313,6 +313,34 @@ def entry_points(rep, tier):
             rep.nontrivial.add('entry-%s-%s' % (path, variant))
 
 
+def steps_only(rep):
+    """A composite that holds steps and no process runs through every entry point."""
+    rep.evaluations += 1
+    rows = {}
+    for entry in ('composite', 'parts', 'store'):
+        c = Composite(steps={'s1': TagStep({'tag': 's1'})}, flow={'s1': []},
+                      topology={'s1': {'v': ('sv',)}})
+        try:
+            if entry == 'composite':
+                eng = Engine(composite=c, display_info=False)
+            elif entry == 'parts':
+                eng = Engine(steps=c['steps'], flow=c['flow'], topology=c['topology'],
+                             display_info=False)
+            else:
+                eng = Engine(store=c.generate_store(), display_info=False)
+            rows[entry] = rows_of(eng, 2)
+        except Exception as e:
+            rep.violation({'kind': 'steps-only', 'entry': entry},
+                          'C16 a composite of steps only cannot be run through the %s entry '
+                          'point: %r' % (entry, e), {})
+            return
+    if not (rows['composite'] == rows['parts'] == rows['store']):
+        rep.violation({'kind': 'steps-only', 'what': 'rows'},
+                      'C16 a composite of steps only emits different data through the three '
+                      'entry points: %r' % (rows,), {})
+    rep.nontrivial.add('steps-only')
+
+
 def overrides(rep):
     rep.evaluations += 1
 
@@ -449,6 +477,7 @@ def check(prop, tier, seed):
         validate(rep, histories(tier, seed), scratch)
     rep.guard(entry_points, rep, tier, what='engine entry points')
     rep.guard(overrides, rep, what='schema overrides / MetaComposer')
+    rep.guard(steps_only, rep, what='steps-only composite')
     return rep.finish()
 
 
